@@ -38,6 +38,15 @@ POSITIONS = {
     "after-loop": "def f(a):\n    for i in range(a):\n        a += i\n{S}\n    return a",
     "nested-deep": "def f(a):\n    if a:\n        while a:\n            if a > 1:\n{SSSS}\n            a -= 1\n    return a",
     "first": "def f(a):\n{S}\n    return a",
+    # reachable only through a `break` that sits in the else clause of an inner loop, after an outer loop whose
+    # own else clause returns (a "the rest is dead" shortcut that looks at the outer loop alone is wrong here)
+    "after-loop-left-by-inner-else-break": "def f(a):\n    if a:\n        while a:\n            for i in range(a):\n                a -= 1\n"
+                                           "            else:\n                if a == 3:\n                    break\n            a -= 1\n"
+                                           "        else:\n            return 0\n{SS}\n    return a",
+    "after-loop-left-by-inner-else-break-top": "def f(a):\n    while a:\n        for i in range(a):\n            a -= 1\n"
+                                               "        else:\n            if a == 3:\n                break\n        a -= 1\n"
+                                               "    else:\n        return 0\n{S}\n    return a",
+    "after-if-one-arm-returns": "def f(a):\n    if a:\n        return 1\n    else:\n        a = 2\n{S}\n    return a",
 }
 
 
